@@ -221,12 +221,13 @@ func main() {
 					bgmain.Used <- bondgo.UsageNotify{bondgo.TR_PROC, procid, bondgo.C_ROMSIZE, bondgo.S_NIL, linesn}
 				}
 
-				bgmain.Used <- bondgo.UsageNotify{bondgo.TR_EXIT, 0, 0, bondgo.S_NIL, bondgo.I_NIL}
-				<-usagedone
-
+				// Stop the variable allocator first: its last usage notification must reach the usage monitor before TR_EXIT
 				gent, _ := bondgo.Type_from_string(bgmain.Basic_type)
 				bgmain.Reqs <- bondgo.VarReq{bondgo.REQ_EXIT, 0, bondgo.VarCell{gent, 0, 0, 0, 0, 0, 0, 0}}
 				<-assignerdone
+
+				bgmain.Used <- bondgo.UsageNotify{bondgo.TR_EXIT, 0, 0, bondgo.S_NIL, bondgo.I_NIL}
+				<-usagedone
 			}
 
 			fmt.Print(bgmain.Dump_log())
